@@ -575,6 +575,8 @@ def run_case(ctx, case):
             zv = ser_names if not base.startswith("auto") else list(range(len(zvals)))
             if o.get("_cline"):
                 want_colors = expected_series_colors(dict(o, colors=True), zv, cvals=ds["cc"].values.tolist())
+            elif base == "scatter" and o.get("_c"):
+                want_colors = None          # (coloured point by point through the c variable: judged in judge_line_axes)
             else:
                 want_colors = expected_series_colors(o, zv)
         else:
